@@ -1100,6 +1100,13 @@ class Median(GroupByShift):
         if isinstance(parent, Projection):
             return groupby_projection(self, parent, dependents)
 
+    def _divisions(self):
+        if not self.need_to_shuffle and len(self.by) > 1:
+            # the result is indexed by all group keys, not by the index the
+            # frame is partitioned on: its divisions do not describe it
+            return (None,) * (self.frame.npartitions + 1)
+        return super()._divisions()
+
     @functools.cached_property
     def npartitions(self):
         npartitions = self.frame.npartitions
